@@ -7,12 +7,14 @@
 
   HOOK (composition with the thread-pool model, C09): `taskEffects s eff` is what executing the task of
   an `enqueue` effect does; `C04_task_runs_callable_once` shows one execution of the task is exactly one
-  invocation.  The pool theorems ("every enqueued task is executed exactly once in every schedule") are to be
-  instantiated on it; they are not part of this file.  The client half (`_request_notify` returns None)
+  invocation.  `C04_once_pooled` (end of this file) instantiates the pool theorems of C09 on the task that the
+  `enqueue` effect creates in `JRV.Model.Pool`.  The client half (`_request_notify` returns None)
   belongs to the client model (C06/C14 files).
 -/
 import JRV.Lemmas.Server
+import JRV.Lemmas.PoolCompose
 import JRV.Properties.C03
+import JRV.Properties.C09
 import JRV.Generated
 
 set_option linter.unusedSimpArgs false
@@ -149,6 +151,134 @@ theorem C04_task_runs_custom_once (s : Server) (d : DispatchFn) (hcustom : s.cus
   simp only [taskEffects, runDispatcher, hcustom]
   cases d (.str m) p <;> simp
 
+/- ---------- pooled: composition with the thread-pool model (JRV.Model.Pool, theorems of C09) ---------- -/
+
+/-- The pool-model action with which the request thread — client `i` of `JRV.Model.Pool` — performs an effect of
+    the dispatcher's log: an `enqueue` effect is one call of `ThreadPool.enqueue`; inline calls do not touch the pool. -/
+def poolCallOf (i : Nat) : Effect → Option JRV.Pool.Action
+  | .enqueue _ _ _ _ => Option.some ⟨.client i, .callEnqueue, false⟩
+  | _ => Option.none
+
+/-- The callable invocations that the pool task `t` carrying the `enqueue` effect `eff` has caused up to the pool
+    state `ps`: one copy of `taskEffects s eff` per execution of the task body (`execCount` counts `task.begin`). -/
+def pooledEffects (s : Server) (eff : Effect) (ps : JRV.Pool.State) (t : Nat) : List Effect :=
+  match ps.tasks[t]? with
+  | Option.some tk => (List.replicate tk.execCount (taskEffects s eff)).flatten
+  | Option.none => []
+
+/-- Core of the composition (every `enqueue` effect, whatever its task does): the `ThreadPool.enqueue` call of client `i`
+    allocates the fresh task id `t = ps.tasks.length`; in every pool state reachable afterwards — any interleaving of any
+    number of request threads, workers and the controlling thread, any timing — that id still denotes a task, its body
+    has been entered at most once (`C09_at_most_once`), exactly once iff its phase is running or finished
+    (`C09_exec_count_phase`), and the invocations it has caused are `taskEffects s eff` once, or nothing yet. -/
+private theorem pooled_core (s : Server) (eff : Effect)
+    (cfg : JRV.Pool.Config) (n : Nat) (ps ps' : JRV.Pool.State) (hr : JRV.Pool.Reach (JRV.Pool.init cfg n) ps)
+    (i : Nat) (hstep : JRV.Pool.step? ps ⟨.client i, .callEnqueue, false⟩ = Option.some ps') :
+    ps'.tasks[ps.tasks.length]? = Option.some { creator := i } ∧
+    ∀ ps'', JRV.Pool.Reach ps' ps'' →
+      ∃ tk, ps''.tasks[ps.tasks.length]? = Option.some tk ∧ tk.execCount ≤ 1 ∧
+        tk.execCount = (if tk.phase = .running ∨ tk.phase = .finished then 1 else 0) ∧
+        pooledEffects s eff ps'' ps.tasks.length
+          = (if tk.phase = .running ∨ tk.phase = .finished then taskEffects s eff else []) := by
+  have halloc := JRV.Pool.callEnqueue_allocates hstep
+  refine ⟨by simp [halloc], fun ps'' hreach => ?_⟩
+  have hr'' : JRV.Pool.Reach (JRV.Pool.init cfg n) ps'' := JRV.Pool.Reach.trans (JRV.Pool.Reach.step _ hr hstep) hreach
+  obtain ⟨tk, htk⟩ := JRV.Pool.task_persists hreach (t := ps.tasks.length) (by simp [halloc])
+  have h1 := C09_at_most_once cfg n ps'' hr'' _ tk htk
+  have h2 := C09_exec_count_phase cfg n ps'' hr'' _ tk htk
+  refine ⟨tk, htk, h1, h2, ?_⟩
+  simp only [pooledEffects, htk, h2]
+  split <;> simp
+
+/-- **Exactly once on the notification pool** (default dispatcher, registered function, arguments bind).
+    Dispatcher half: the entry's effect log is exactly one `enqueue`, the request thread calls nothing and produces no
+    response object; that `enqueue` is one `ThreadPool.enqueue` call of the request thread (client `i` of the pool model).
+    Pool half (direct instantiation of `C09_at_most_once` / `C09_exec_count_phase` on the task id that this call
+    allocates, in an arbitrary reachable pool state — the pool may be serving any other requests): in every pool state
+    reachable afterwards the registered function has been invoked by this notification at most once, with the request's
+    `params`, and exactly once as soon as the task is running or finished; never twice.
+    NOT claimed by this theorem: that the task is eventually begun.  That is the liveness half of the pool properties —
+    `C09_eventually_once` / `C09_eventually_begins` (no stuck state + decreasing variant, for a running pool with a single
+    controlling thread), resting on `C09_queued_has_server`, `C10_no_starvation` and `C10_progress_no_stuck`; it is
+    instantiated on this task id in `C04_pooled_eventually_runs` below, and exercised on the real code by stage 2 of
+    harness/props/c04.py, which reports a notification that is accepted and never executed. -/
+theorem C04_once_pooled (s : Server) (hpool : s.pool = .accepting) (hcustom : s.custom = Option.none)
+    (e : PyVal) (kvs : List (PyVal × PyVal)) (m : String) (p : PyVal) (hv : validateNF e = .valid kvs m p)
+    (hn : wfNotification e = true)
+    (c : Callable) (hf : s.reg.funcs.lookup m = some c) (hb : binds c.sig p = true)
+    (cfg : JRV.Pool.Config) (n : Nat) (ps ps' : JRV.Pool.State) (hr : JRV.Pool.Reach (JRV.Pool.init cfg n) ps)
+    (i : Nat) (hstep : JRV.Pool.step? ps ⟨.client i, .callEnqueue, false⟩ = Option.some ps') :
+    entryEffects s e = [.enqueue false (.str m) p (requestConfig s.cfg (hasKeyStr "jsonrpc" kvs)).version] ∧
+    respond s e = Option.none ∧
+    (entryEffects s e).filterMap (poolCallOf i) = [⟨.client i, .callEnqueue, false⟩] ∧
+    ps'.tasks[ps.tasks.length]? = Option.some { creator := i } ∧
+    ∀ ps'', JRV.Pool.Reach ps' ps'' →
+      ∃ tk, ps''.tasks[ps.tasks.length]? = Option.some tk ∧ tk.execCount ≤ 1 ∧
+        tk.execCount = (if tk.phase = .running ∨ tk.phase = .finished then 1 else 0) ∧
+        pooledEffects s (.enqueue false (.str m) p (requestConfig s.cfg (hasKeyStr "jsonrpc" kvs)).version) ps'' ps.tasks.length
+          = (if tk.phase = .running ∨ tk.phase = .finished then [.call .func (.str m) p] else []) := by
+  obtain ⟨he, hresp⟩ := C04_once_pooled_enqueue s hpool e kvs m p hv hn
+  have hc : s.custom.isSome = false := by simp [hcustom]
+  rw [hc] at he
+  have hcore := pooled_core s (.enqueue false (.str m) p (requestConfig s.cfg (hasKeyStr "jsonrpc" kvs)).version) cfg n ps ps' hr i hstep
+  rw [C04_task_runs_callable_once s hcustom m p _ c hf hb] at hcore
+  exact ⟨he, hresp, by simp [he, poolCallOf], hcore.1, hcore.2⟩
+
+/-- **… and it does run** (instantiation of `C09_eventually_begins` on the task of the notification): in every pool state
+    reachable after the `enqueue` in which the pool is running, no client thread is inside a pool call (the request thread
+    has returned from `enqueue`, the controlling thread from `start()`) and the task still waits (queued, or taken and not
+    begun), there is a finite sequence of worker actions — no time-out, no `task.end`, no client action — after which the
+    registered function has been invoked exactly once by this notification, or some worker is inside a task body (only then
+    does progress depend on the environment: that body has to end; by `C10_running_le_max`/`C10_no_starvation` at most
+    `max_threads` bodies run and a free worker exists below that).  Single controlling thread, `max_threads ≥ 1`, as in C09. -/
+theorem C04_pooled_eventually_runs (s : Server) (hcustom : s.custom = Option.none) (m : String) (p : PyVal) (ver : Nat)
+    (c : Callable) (hf : s.reg.funcs.lookup m = some c) (hb : binds c.sig p = true)
+    (cfg : JRV.Pool.Config) (n : Nat) (hctl : cfg.singleCtl = true) (hmax : 1 ≤ cfg.max)
+    (ps ps' : JRV.Pool.State) (hr : JRV.Pool.Reach (JRV.Pool.init cfg n) ps)
+    (i : Nat) (hstep : JRV.Pool.step? ps ⟨.client i, .callEnqueue, false⟩ = Option.some ps')
+    (ps'' : JRV.Pool.State) (hreach : JRV.Pool.Reach ps' ps'') (hrun : ps''.stop = false)
+    (hidle : ∀ cl ∈ ps''.clients, cl.pc = .idle)
+    (tk : JRV.Pool.Task) (ht : ps''.tasks[ps.tasks.length]? = Option.some tk) (hwait : tk.phase = .queued ∨ tk.phase = .held) :
+    ∃ (as : List JRV.Pool.Action) (ps3 : JRV.Pool.State),
+      (∀ a ∈ as, a.timeout = false ∧ JRV.Pool.notTaskEnd a.op = true ∧ ∃ j, a.who = .worker j) ∧
+      JRV.Pool.run ps'' as = Option.some ps3 ∧
+      (pooledEffects s (.enqueue false (.str m) p ver) ps3 ps.tasks.length = [.call .func (.str m) p] ∨
+        ∃ w ∈ ps3.workers, w.pc = .body) := by
+  have hr'' : JRV.Pool.Reach (JRV.Pool.init cfg n) ps'' := JRV.Pool.Reach.trans (JRV.Pool.Reach.step _ hr hstep) hreach
+  obtain ⟨as, ps3, h1, h2, h3⟩ := C09_eventually_begins cfg n ps'' hctl hmax hr'' hrun hidle _ tk ht hwait
+  refine ⟨as, ps3, h1, h2, ?_⟩
+  rcases h3 with ⟨tk', htk', hph⟩ | hbody
+  · left
+    obtain ⟨tk2, htk2, _, _, heff⟩ :=
+      (pooled_core s (.enqueue false (.str m) p ver) cfg n ps ps' hr i hstep).2 ps3 (JRV.Pool.Reach.trans hreach (reach_of_run h2))
+    rw [htk'] at htk2; cases htk2
+    rw [heff, C04_task_runs_callable_once s hcustom m p ver c hf hb]
+    simp [hph]
+  · exact Or.inr hbody
+
+/-- The same with a custom dispatch function: it is called at most once with `(method, params)` — whatever the method
+    name, known or not — and exactly once as soon as the pool task is running or finished. -/
+theorem C04_once_pooled_custom (s : Server) (hpool : s.pool = .accepting) (d : DispatchFn) (hcustom : s.custom = some d)
+    (e : PyVal) (kvs : List (PyVal × PyVal)) (m : String) (p : PyVal) (hv : validateNF e = .valid kvs m p)
+    (hn : wfNotification e = true)
+    (cfg : JRV.Pool.Config) (n : Nat) (ps ps' : JRV.Pool.State) (hr : JRV.Pool.Reach (JRV.Pool.init cfg n) ps)
+    (i : Nat) (hstep : JRV.Pool.step? ps ⟨.client i, .callEnqueue, false⟩ = Option.some ps') :
+    entryEffects s e = [.enqueue true (.str m) p (requestConfig s.cfg (hasKeyStr "jsonrpc" kvs)).version] ∧
+    respond s e = Option.none ∧
+    (entryEffects s e).filterMap (poolCallOf i) = [⟨.client i, .callEnqueue, false⟩] ∧
+    ps'.tasks[ps.tasks.length]? = Option.some { creator := i } ∧
+    ∀ ps'', JRV.Pool.Reach ps' ps'' →
+      ∃ tk, ps''.tasks[ps.tasks.length]? = Option.some tk ∧ tk.execCount ≤ 1 ∧
+        tk.execCount = (if tk.phase = .running ∨ tk.phase = .finished then 1 else 0) ∧
+        pooledEffects s (.enqueue true (.str m) p (requestConfig s.cfg (hasKeyStr "jsonrpc" kvs)).version) ps'' ps.tasks.length
+          = (if tk.phase = .running ∨ tk.phase = .finished then [.call .custom (.str m) p] else []) := by
+  obtain ⟨he, hresp⟩ := C04_once_pooled_enqueue s hpool e kvs m p hv hn
+  have hc : s.custom.isSome = true := by simp [hcustom]
+  rw [hc] at he
+  have hcore := pooled_core s (.enqueue true (.str m) p (requestConfig s.cfg (hasKeyStr "jsonrpc" kvs)).version) cfg n ps ps' hr i hstep
+  rw [C04_task_runs_custom_once s d hcustom m p _] at hcore
+  exact ⟨he, hresp, by simp [he, poolCallOf], hcore.1, hcore.2⟩
+
 /-- Tie to the source: the notification ids, and the silent exception path. -/
 theorem C04_gen_notifIds :
     Generated.notifIds = some [Option.none, some ""] ∧
@@ -157,6 +287,13 @@ theorem C04_gen_notifIds :
   ⟨by decide, rfl⟩
 
 theorem C04_gen_exceptPathSilencesNotification : Generated.exceptPathSilencesNotification = some true := by decide
+
+/-- Tie of `C04_once_pooled` to the source of the notification pool: the facts of `ThreadPool` that the pool model's hand-off
+    of tasks (growth, retirement, accounting, lock discipline) encodes — the same facts C09 is tied by. -/
+theorem C04_gen_poolRetireRule : Generated.poolRetireRule = some JRV.Pool.retireRuleSpec := by decide
+theorem C04_gen_poolGrowthRule : Generated.poolGrowthRule = some JRV.Pool.growthRuleSpec := by decide
+theorem C04_gen_poolPendingStores : Generated.poolPendingStores = some JRV.Pool.pendingStoresSpec := by decide
+theorem C04_gen_poolUnlockedAccesses : Generated.poolUnlockedAccesses = some JRV.Pool.unlockedAccessesSpec := by decide
 
 /- Non-vacuity: notifications whose method raises / does not exist / gets bad arguments, at a batch
    position, inline and pooled. -/
@@ -181,6 +318,28 @@ example : marshaledDispatch { cfg := {}, reg := exReg, pool := .accepting }
 example : marshaledDispatch { cfg := {}, custom := some (fun _ _ => .raised "KeyError" "'x'" false false) }
     (.parsed (notif "anything" []))
     = (.ok .empty, [.call .custom (.str "anything") (.list [])]) := by
+  decide +kernel
+
+/- Non-vacuity of `C04_once_pooled`: a started pool (max 1, min 0), the request thread's `enqueue` of the notification
+   `add [1, 2]`, then the steps up to the worker's `task.begin`: the hypotheses hold and the composed log is one call. -/
+private def exPoolCfg : JRV.Pool.Config := { max := 1, min := 0, qbound := 0 }
+private def exStarted : List JRV.Pool.Action :=
+  [⟨.client 0, .callStart, false⟩, ⟨.client 0, .eventIsSet, false⟩, ⟨.client 0, .eventClear, false⟩, ⟨.client 0, .queueQsize, false⟩]
+private def exAfter : List JRV.Pool.Action :=
+  [⟨.client 0, .lockAcquire, false⟩, ⟨.client 0, .queuePut, false⟩, ⟨.client 0, .lockAcquire, false⟩,
+   ⟨.client 0, .eventIsSet, false⟩, ⟨.client 0, .lockRelease, false⟩, ⟨.client 0, .lockRelease, false⟩,
+   ⟨.worker 0, .eventIsSet, false⟩, ⟨.worker 0, .queueGet, false⟩, ⟨.worker 0, .lockAcquire, false⟩,
+   ⟨.worker 0, .lockRelease, false⟩, ⟨.worker 0, .taskBegin, false⟩]
+
+example :
+    (do let ps ← JRV.Pool.run (JRV.Pool.init exPoolCfg 1) exStarted            -- `Reach init ps` by `reach_of_run` (C09.lean)
+        let ps' ← JRV.Pool.step? ps ⟨.client 0, .callEnqueue, false⟩           -- the hypothesis `hstep`
+        let ps'' ← JRV.Pool.run ps' exAfter                                     -- `Reach ps' ps''`
+        pure (ps'.tasks[ps.tasks.length]?.map (·.execCount), ps''.tasks[ps.tasks.length]?.map (·.phase),
+              pooledEffects { cfg := {}, reg := exReg, pool := .accepting }
+                (.enqueue false (.str "add") (.list [.int 1, .int 2]) 20) ps'' ps.tasks.length))
+      = Option.some (Option.some 0, Option.some .running, [.call .func (.str "add") (.list [.int 1, .int 2])]) ∧
+    wfNotification (notif "add" [.int 1, .int 2]) = true := by
   decide +kernel
 
 end JRV.Props
